@@ -163,6 +163,32 @@ def sections_cmdline(m, st, far, near):
     return r
 
 
+def sections_basic(m, st, far, near, version):
+    import argparse
+    kw = {}
+    if far is not None:
+        kw['zen'] = make_angle(far[0])
+        kw['azi'] = make_angle(far[1])
+        if far[2]:
+            kw['pwr_ff'] = far[2]
+        if far[3]:
+            kw['ff_dist'] = far[3]
+            kw['ff_abs'] = True
+    if near is not None:
+        kw['near'] = list(near[0]) + list(near[1]) + list(near[2])
+        if near[3]:
+            kw['pwr_nf'] = near[3]
+    ns = argparse.Namespace(mininec_version=version)
+    return {'txt.basic[%s]' % version: m.as_basic_input(ns, **kw)}
+
+
+def sections_misc(m, st):
+    r = {'txt.geo_as_str': m.geo_as_str(), 'txt.str': '\n'.join(str(g) for g in m.geo)}
+    if st.computed:
+        r['txt.dump_matrix'] = m.dump_matrix()
+    return r
+
+
 def abstract_state(m, st):
     zint = any(getattr(g, 'zint', None) is not None for g in m.geo)
     zins = any(getattr(g, 'zins', None) is not None for g in m.geo)
@@ -276,13 +302,20 @@ class ApiRuntime:
                 far = t['fars'][st.far] if st.far is not None else None
                 near = t['nears'][st.near] if st.near is not None else None
                 return True, sections_cmdline(m, st, far, near), info
+            elif kind == 'OBS_BASIC':
+                far = t['fars'][st.far] if st.far is not None else None
+                near = t['nears'][st.near] if st.near is not None else None
+                return True, sections_basic(m, st, far, near, op[1]), info
+            elif kind == 'OBS_MISC':
+                return True, sections_misc(m, st), info
             else:
                 raise ValueError('unknown op %r' % (op,))
         except Exception as e:
             st.apply(op)
             self.dead = (kind, 'raise:%s' % type(e).__name__)
             if kind.startswith('OBS_'):
-                w = {'OBS_NUM': 'num', 'OBS_REPORT': 'report', 'OBS_CMDLINE': 'cmdline'}[kind]
+                w = {'OBS_NUM': 'num', 'OBS_REPORT': 'report', 'OBS_CMDLINE': 'cmdline',
+                     'OBS_BASIC': 'basic', 'OBS_MISC': 'misc'}[kind]
                 return True, {'exc:%s' % w: type(e).__name__}, info
             return True, {'exc': '%s:%s' % (kind, type(e).__name__)}, info
         return True, None, info
@@ -336,6 +369,12 @@ def oracle_api(task, point, wanted):
                 far = task['fars'][fari] if fari is not None else None
                 near = task['nears'][neari] if neari is not None else None
                 out.update(sections_cmdline(m, st, far, near))
+            elif w[0] == 'basic':
+                far = task['fars'][fari] if fari is not None else None
+                near = task['nears'][neari] if neari is not None else None
+                out.update(sections_basic(m, st, far, near, w[1]))
+            elif w[0] == 'misc':
+                out.update(sections_misc(m, st))
         except Exception as e:
             out['exc:%s' % w[0]] = type(e).__name__
     return out
